@@ -650,7 +650,7 @@ def _mut_borrow_calls(body, local):
     refs = set()
     for i, j, s in body.stmts():
         pl, rv = s[0], s[1]
-        if rv.get('op') == 'ref' and rv.get('mut') and rv['pl'][0] == local and len(pl) == 1:
+        if rv.get('op') == 'ref' and rv.get('mut') and rv['pl'][0] == local and len(pl) == 1 and all(x == '*' for x in rv['pl'][1:]) and local > body.argc:
             refs.add(pl[0])
     out = []
     if refs:
@@ -702,6 +702,9 @@ def sources(body, operand_or_local, through=(), depth=60, _seen=None):
     out = set()
     through = set(through) | PURE_THROUGH
 
+    def _fpath(pl):
+        return tuple(x[1:].split(':')[0] for x in pl[1:] if isinstance(x, str) and x.startswith('.'))
+
     def from_place(pl, d):
         l = pl[0]
         for p in pl[1:]:
@@ -713,7 +716,7 @@ def sources(body, operand_or_local, through=(), depth=60, _seen=None):
                     out.add(('field', f))
             elif isinstance(p, str) and p.startswith('[_'):
                 pass
-        from_local(l, d)
+        from_local(l, d, _fpath(pl))
 
     def from_operand(o, d):
         pl = op_place(o)
@@ -748,13 +751,18 @@ def sources(body, operand_or_local, through=(), depth=60, _seen=None):
             else:
                 out.add(('const', None))
 
-    def from_local(l, d):
-        if l in _seen or d <= 0:
+    def from_local(l, d, rpath=()):
+        if (l, rpath) in _seen or d <= 0:
             return
-        _seen.add(l)
+        _seen.add((l, rpath))
         if 1 <= l <= body.argc:
             out.add(('arg', l))
         for (bb, i, kind, payload) in body.defs.get(l, ()):
+            if kind in ('passign', 'pcall') and rpath:
+                wpath = _fpath(payload[0] if kind == 'passign' else payload['d'])
+                n = min(len(wpath), len(rpath))
+                if wpath[:n] != rpath[:n]:
+                    continue   # a write to a different field of the same aggregate
             if kind in ('assign', 'passign'):
                 rv = payload[1]
                 o = rv.get('op')
